@@ -32,6 +32,7 @@ pub enum Cause {
 }
 
 #[derive(Clone, Debug)]
+#[allow(dead_code)]
 pub struct Plan {
     pub br: Br,
     pub z212: Z212,
